@@ -16,7 +16,8 @@ def make(rd, tier, seed, ev):
     named, expected = [], {}
     # 1. the constraint-only fragment, decided by ConstraintSat.tla; every program in three equivalent formulations
     progs = gen_problems.constraint_programs(150 if quick else 1500, seed)
-    verdicts, r = gen_problems.decide_constraints(progs, rd)
+    tight, tclasses = gen_problems.tight_family(len(progs))
+    verdicts, r = gen_problems.decide_constraints(progs + tight, rd)
     ev.add_model(r, 'ConstraintSat: complete decision procedure (boolean enumeration x Fourier-Motzkin) on the generated constraint programs')
     rnd = random.Random(seed)
     for p in progs:
@@ -30,6 +31,14 @@ def make(rd, tier, seed, ev):
             named.append((name, text))
             expected[name] = bool(verdicts[p['id']])
             CLASSES.setdefault('cp%04d' % p['id'], []).append(name)
+    # 1b. bounds that meet exactly / miss by one, in every statement order (each order is one formulation of its class)
+    for cls, ids in tclasses.items():
+        for pid in ids:
+            p = tight[pid - len(progs)]
+            name = 'ct%04d' % pid
+            named.append((name, gen_problems.render_constraints(p)))
+            expected[name] = bool(verdicts[pid])
+            CLASSES.setdefault(cls, []).append(name)
     # 2. small timeline problems decided by PlanGen.tla
     shapes, r2 = gen_problems.plangen_shapes(2, rd)
     ev.add_model(r2, 'PlanGen: complete decision procedure (enumeration of integer schedules) on all small timeline problems')
@@ -88,8 +97,8 @@ def run(tier, seed):
         return plancheck.run_plan(PROP, tier, seed,
             rule='ground truth from independent complete decision procedures written in TLA+ and run by TLC: ConstraintSat.tla on '
                  'seeded constraint-only programs (2 booleans, 2 reals, 2-4 statements: literals, |, ^, six linear relations, '
-                 'two-way disjunctions), each rendered in three equivalent formulations (renamed identifiers, permuted '
-                 'statements, added tautologies); PlanGen.tla on every small StateVariable / ReusableResource scheduling '
+                 'two-way disjunctions, relation | literal), each rendered in three equivalent formulations (renamed identifiers, permuted '
+                 'statements, added tautologies), and on the boundary family (bounds that meet exactly or miss by one through x0 rel x1, optionally guarded by a boolean that another statement falsifies, in every statement order); PlanGen.tla on every small StateVariable / ReusableResource scheduling '
                  'problem (sampled); and families built around a known solution (temporal patterns, recursive / unifying rules, time-point programs with a planted witness read at once / inside a rule / incrementally, inheritance chains). '
                  'A problem that has a solution must not be answered unsolvable / inconsistent, and the members of an '
                  'equivalence class must get the same verdict, in every configuration; distinct_nontrivial = (configuration, '
